@@ -227,6 +227,7 @@ struct OpDesc {
 
 static void opConstruct(unsigned slot, Policy pol, bool withLogger) {
 	World& w = *W;
+	if (cfg::BARE && HAS_LOG) withLogger = true;   // states without callbacks are visible only through the verbose log
 	Inst& in = w.inst[slot];
 	in = Inst{};
 	in.slot = static_cast<uint8_t>(slot);
@@ -1065,7 +1066,6 @@ int main(int argc, char** argv) {
 	world.events.reserve(1u << 15);
 	world.readPlanHook = [](Inst& in) {
 #if HAS_PLANS
-		if (!in.alive && in.st.op != OP_CTOR && in.st.op != OP_COPY) return;
 		bool ok = true;
 		in.actualPlan = readPlan(static_cast<const Instance*>(in.obj)->plan(), &ok);
 		in.actualPlanKnown = true;
